@@ -21,14 +21,14 @@ type memAcc struct {
 
 // Cert is the partial-order certificate of one run.
 type Cert struct {
-	Events   int
-	Edges    int
-	Pairs    int  // conflicting pairs examined
-	Issued   bool // every conflicting pair is ordered in all linearisations
-	Races    []string // unordered conflicting memory accesses
+	Events     int
+	Edges      int
+	Pairs      int      // conflicting pairs examined
+	Issued     bool     // every conflicting pair is ordered in all linearisations
+	Races      []string // unordered conflicting memory accesses
 	ChanNondet []string // unordered operations on one channel endpoint / lock
-	Voided   string // reason the certificate cannot be issued at all
-	Result   string
+	Voided     string   // reason the certificate cannot be issued at all
+	Result     string
 }
 
 // RawQuery runs a self-contained query in a nested scope.
